@@ -80,3 +80,23 @@ Proof.
   rewrite (map_nth_error _ _ _ Hs).
   destruct H as [H|H]; rewrite H; reflexivity.
 Qed.
+
+(* finding F-C08-2 on the model: INSERT 5.0; DELETE 5.0; INSERT 5 — every statement succeeds and the
+   key that comes back is the OLD one (REAL), not the one the last INSERT was given *)
+Definition reinsert_shape (tb : table) (k_old k_new v : sval) : Prop :=
+  k_old <> k_new /\ order_exact k_old k_new = Some Eq /\
+  (let '(t1, o1) := tbl_insert (cfg_rows 4096) tb 10 k_old [VInt 1] in
+   let '(t2, o2) := tbl_delete (cfg_rows 4096) t1 20 k_old in
+   let '(t3, o3) := tbl_insert (cfg_rows 4096) t2 30 k_new [v] in
+   o1 = OK /\ o2 = OK /\ o3 = OK /\ select_model t3 false [] = Some [(k_old, [v])]).
+
+Lemma reinserted_key_class_witness : exists tb k_old k_new v, reinsert_shape tb k_old k_new v.
+Proof.
+  exists {| tb_h := {| h_ro := false; h_tree := []; h_dirty := false; h_link := None; h_created := None;
+                      h_source := None; h_msources := []; h_mode := 1; h_bf := 4096; h_merged := [];
+                      h_tombstoned := false; h_conf := 0 |};
+           tb_tx := None; tb_ncols := 1; tb_ro := false |},
+         (VReal 4617315517961601024), (VInt 5), (VInt 2).
+  split; [discriminate|]. split; vm_compute; repeat split.
+Qed.
+
